@@ -12,9 +12,10 @@ import random
 
 PROPERTY = "C13"
 RULE = (
-    "case kinds: (poly) num_locs in {1,2,3,5,10,20,32,40} x mean/variance regime x batch shape x distribution type (torch Normal, MVN with "
-    "dense / diagonal lazy covariance, same object integrated twice); (lik) likelihood in {Laplace, StudentT, Beta, Bernoulli} x num_locs x "
-    "batch; (bernoulli) marginal; (logcdf) grid chunk; distinct = cell without seed; non-trivial iff variance>0 (always) and degree>=1"
+    'case kinds: (poly) num_locs in {1,2,3,5,10,20,32,40} x mean/variance regime x batch shape x distribution type (torch Normal, MVN with dense '
+    '/ diagonal lazy covariance, same object integrated twice); (lik) likelihood in {Laplace, StudentT, Beta, Bernoulli} x num_locs x batch x '
+    '{ordinary, outlying observations}; (bernoulli) marginal; (logcdf) grid chunk; distinct = cell without seed; non-trivial iff variance>0 '
+    '(always) and degree>=1'
 )
 REQUIRED = ["poly_exact", "poly_degree_2n_not_exact", "dist_not_mutated", "lik_expected_log_prob", "lik_log_marginal", "bernoulli_marginal", "conditional_params", "log_normal_cdf", "log_normal_cdf_grad", "truncation_error_shrinks"]
 ASSUMPTIONS = [
